@@ -129,7 +129,15 @@ def handle (j : Json) : Except String Json := do
       | .ok .null => pure none
       | _ => do pure (some (← (← pPairs j "custom").mapM (fun (k, v) => do pure (k, ← pCVal v))))
     let names ← (← getArr j "names").toList.mapM (·.getStr?)
-    pure (Json.mkObj [("values", Json.arr (names.map (fun n => jCVal (getAttribute custom env px n))).toArray)])
+    -- own attribute lookups that fail: {"names": [...], "kind": "attr" | "other"} (getters raising)
+    let own : String → OwnOut ← match j.getObjVal? "own_fault" with
+      | .ok (.obj _) => do
+        let f ← j.getObjVal? "own_fault"
+        let bad ← (← getArr f "names").toList.mapM (·.getStr?)
+        let out := if (← getStr f "kind") == "attr" then OwnOut.attributeError else OwnOut.raises
+        pure (fun n => if bad.contains n then out else ownStatic n)
+      | _ => pure ownStatic
+    pure (Json.mkObj [("values", Json.arr (names.map (fun n => jCVal (getAttribute own custom env px n))).toArray)])
   | "interval" =>
     let w ← pWorld j
     let v := w.get "POLL_TIMER"
